@@ -1,5 +1,6 @@
 import Lean.Data.Json
 import GsModel.Diff.Json
+import GsModel.Ops.Regen
 /-
   Model driver: one JSON request per line on stdin, one JSON response per line on stdout.
   Imports no Mathlib (compiled as `lean_exe gsdriver`).
@@ -25,6 +26,26 @@ def handleExecute (j : Json) : Json :=
   | .text lines => Json.mkObj [("r", Json.str "ok"), ("exit", Json.bool r.2), ("lines", Json.arr (lines.map Json.str).toArray)]
   | .json out => Json.mkObj [("r", Json.str "ok"), ("exit", Json.bool r.2), ("diffs", Json.arr (out.map Diff.J.entryJson).toArray)]
 
+/-- {"op":"regen.exec","fs":[[p,c]..],"ops":[{"run":[[p,c,skip]..]} | {"user":[p,c]}]} → {"fs":[[p,c]..]} -/
+def handleRegen (j : Json) : Json :=
+  let pair (x : Json) : String × String :=
+    match x with
+    | .arr a => ((a[0]?.bind (·.getStr?.toOption)).getD "", (a[1]?.bind (·.getStr?.toOption)).getD "")
+    | _ => ("", "")
+  let fs : Regen.FS := (Diff.J.arr j "fs").map pair
+  let ops : List Regen.Op := (Diff.J.arr j "ops").map (fun o =>
+    match o.getObjVal? "run" with
+    | .ok (.arr ws) => Regen.Op.run (ws.toList.map (fun w =>
+        match w with
+        | .arr a => { path := (a[0]?.bind (·.getStr?.toOption)).getD "", content := (a[1]?.bind (·.getStr?.toOption)).getD "",
+                      skip := (a[2]?.bind (·.getBool?.toOption)).getD false }
+        | _ => { path := "", content := "", skip := false }))
+    | _ =>
+      let u := pair ((o.getObjVal? "user").toOption.getD .null)
+      Regen.Op.user u.1 u.2)
+  let out := Regen.exec fs ops
+  Json.mkObj [("r", Json.str "ok"), ("fs", Json.arr (out.map (fun kv => Json.arr #[Json.str kv.1, Json.str kv.2])).toArray)]
+
 def handle (line : String) : Json :=
   match Json.parse line with
   | .error e => Json.mkObj [("r", Json.str "bad-input"), ("why", Json.str e)]
@@ -32,6 +53,7 @@ def handle (line : String) : Json :=
     match (j.getObjValAs? String "op").toOption.getD "" with
     | "diff.analyse" => handleDiff j
     | "diff.execute" => handleExecute j
+    | "regen.exec" => handleRegen j
     | op => Json.mkObj [("r", Json.str "bad-op"), ("op", Json.str op)]
 
 partial def loop (h : IO.FS.Stream) (out : IO.FS.Stream) : IO Unit := do
